@@ -2583,7 +2583,7 @@ func (p *Parser) lookaheadSubQuery() bool {
 	}
 	p.nextToken()
 	switch p.Token.Kind {
-	case "UNION", "INTERSECT", "EXCEPT", "ORDER", "LIMIT":
+	case "UNION", "INTERSECT", "EXCEPT", "ORDER", "LIMIT", "FOR", "|>":
 		return true
 	}
 	return false
